@@ -44,6 +44,9 @@ __all__ = [
 # Distance threshold below which the r->0 analytical limit is used
 # instead of erf(x)/x to avoid division by zero at atomic nuclei.
 _R_ZERO_THRESHOLD = 1e-12
+# The limit is only used where it is exact to machine precision, i.e. where sqrt(alpha) * r is
+# below this value as well (for exponents above ~1e13 a radius of 1e-12 is not small).
+_X_ZERO_THRESHOLD = 1e-8
 
 
 def coulomb_gaussian_s(r: np.ndarray, alpha: float, normalized: bool = True) -> np.ndarray:
@@ -87,9 +90,10 @@ def coulomb_gaussian_s(r: np.ndarray, alpha: float, normalized: bool = True) -> 
 
     out = np.empty_like(r)
     sqrt_alpha = np.sqrt(alpha)
-    np.divide(erf(sqrt_alpha * r), r, out=out, where=r >= _R_ZERO_THRESHOLD)
+    small = (r < _R_ZERO_THRESHOLD) & (sqrt_alpha * r < _X_ZERO_THRESHOLD)
+    np.divide(erf(sqrt_alpha * r), r, out=out, where=~small)
     # safe division
-    out[r < _R_ZERO_THRESHOLD] = 2.0 * sqrt_alpha / np.sqrt(np.pi)
+    out[small] = 2.0 * sqrt_alpha / np.sqrt(np.pi)
 
     if normalized:
         return out
@@ -142,12 +146,13 @@ def coulomb_gaussian_p(r: np.ndarray, alpha: float, normalized: bool = True) -> 
 
     sqrt_alpha = np.sqrt(alpha)
     term1 = np.zeros_like(r)
-    np.divide(erf(sqrt_alpha * r), r, out=term1, where=r >= _R_ZERO_THRESHOLD)
+    small = (r < _R_ZERO_THRESHOLD) & (sqrt_alpha * r < _X_ZERO_THRESHOLD)
+    np.divide(erf(sqrt_alpha * r), r, out=term1, where=~small)
     # safe at r=0
     term2 = (4.0 / 3.0) * (sqrt_alpha / np.sqrt(np.pi)) * np.exp(-alpha * r**2)
     out = term1 + term2
     # r->0 limit combines the erf(sqrt(alpha) r)/r series limit and Gaussian tail.
-    out[r < _R_ZERO_THRESHOLD] = (10.0 / 3.0) * (sqrt_alpha / np.sqrt(np.pi))
+    out[small] = (10.0 / 3.0) * (sqrt_alpha / np.sqrt(np.pi))
 
     if normalized:
         return out
